@@ -111,6 +111,15 @@ def e1_skip(key):
 
 _OPS = re.compile(r"^<(?P<ty>[^<>]+(?:<[^<>]*>)?) as core::ops::(?:Add|Sub|Mul|Div|Rem|Neg|AddAssign|SubAssign|MulAssign|DivAssign|RemAssign)(?:<.*>)?>::\w+$")
 _CP_CACHE = {}
+# public constructors / operations whose rustdoc has a `# Panics` section for out-of-domain arguments and whose
+# arguments are not covered by a PARAM contract (contracts.py): like the operator impls, each CALL is an obligation
+DOCUMENTED_PANICS = (
+    "signed_duration::SignedDuration::abs",
+    "signed_duration::SignedDuration::new",
+    "span::Span::years", "span::Span::months", "span::Span::weeks", "span::Span::days", "span::Span::hours",
+    "span::Span::minutes", "span::Span::seconds", "span::Span::milliseconds", "span::Span::microseconds",
+    "span::Span::nanoseconds",
+)
 
 
 def contract_panickers(prog):
@@ -127,7 +136,7 @@ def contract_panickers(prog):
             continue
         if _OPS.match(f.path):
             cands[k] = f
-    out = set()
+    out = set(k for k in ("jiff::" + x for x in DOCUMENTED_PANICS) if k in prog.fns)
     changed = True
     while changed:
         changed = False
